@@ -28,11 +28,11 @@ mod verif_kani_date {
         kani::assume(yof != 0);
         let d = NaiveDate { yof: NonZeroI32::new(yof).unwrap() };
         kani::cover!(yof < 0);
-        assert!(d.yof() == yof);
+        assert!(d.yof() == yof, "d.yof() == yof");
         assert!(d.year() == yof.div_euclid(8192), "year() = floor(yof / 2^13)");
         assert!(d.ordinal() as i32 == yof.rem_euclid(8192) / 16, "ordinal() = bits 4..13");
         assert!(d.year_flags().0 as i32 == yof.rem_euclid(16), "year_flags() = low 4 bits");
-        assert!(d.leap_year() == (yof.rem_euclid(16) & 8 == 0));
+        assert!(d.leap_year() == (yof.rem_euclid(16) & 8 == 0), "d.leap_year() == (yof.rem_euclid(16) & 8 == 0)");
         // from_yof is the identity on the bits whenever its debug assertions hold
         let o = yof.rem_euclid(8192) / 16;
         if o >= 1 && o <= 366 && !(o == 366 && yof & 8 != 0) && yof & 7 != 0 {
@@ -44,8 +44,8 @@ mod verif_kani_date {
     #[kani::proof]
     fn vk_date_consts() {
         assert!(MIN_YEAR as i64 == MIN_Y && MAX_YEAR as i64 == MAX_Y, "year range of the property text");
-        assert!(wf(NaiveDate::MIN) && NaiveDate::MIN.year() as i64 == MIN_Y && NaiveDate::MIN.ordinal() == 1);
-        assert!(wf(NaiveDate::MAX) && NaiveDate::MAX.year() as i64 == MAX_Y && NaiveDate::MAX.ordinal() as i64 == year_len(MAX_Y));
+        assert!(wf(NaiveDate::MIN) && NaiveDate::MIN.year() as i64 == MIN_Y && NaiveDate::MIN.ordinal() == 1, "wf(NaiveDate::MIN) && NaiveDate::MIN.year() as i64 == MIN_Y && NaiveDa");
+        assert!(wf(NaiveDate::MAX) && NaiveDate::MAX.year() as i64 == MAX_Y && NaiveDate::MAX.ordinal() as i64 == year_len(MAX_Y), "wf(NaiveDate::MAX) && NaiveDate::MAX.year() as i64 == MAX_Y && NaiveDa");
         let b = NaiveDate::BEFORE_MIN; let a = NaiveDate::AFTER_MAX;
         assert!(b.year() as i64 == MIN_Y - 1 && b.ordinal() as i64 == year_len(MIN_Y - 1) && b.year_flags().0 == YearFlags::from_year(b.year()).0, "BEFORE_MIN is the day before MIN");
         assert!(a.year() as i64 == MAX_Y + 1 && a.ordinal() == 1 && a.year_flags().0 == YearFlags::from_year(a.year()).0, "AFTER_MAX is the day after MAX");
@@ -59,7 +59,7 @@ mod verif_kani_date {
         let valid = y as i64 >= MIN_Y && y as i64 <= MAX_Y && o >= 1 && o as i64 <= year_len(y as i64);
         kani::cover!(o == 366 && r.is_some()); kani::cover!(o == 366 && r.is_none() && y == 2023);
         assert!(r.is_some() == valid, "from_ordinal_and_flags: Some exactly for an existing ordinal of an in-range year");
-        if let Some(d) = r { assert!(wf(d) && d.year() == y && d.ordinal() == o); }
+        if let Some(d) = r { assert!(wf(d) && d.year() == y && d.ordinal() == o, "wf(d) && d.year() == y && d.ordinal() == o"); }
     }
 
     // fns: NaiveDate::from_yo_opt
@@ -70,7 +70,7 @@ mod verif_kani_date {
         let valid = y as i64 >= MIN_Y && y as i64 <= MAX_Y && o >= 1 && o as i64 <= year_len(y as i64);
         kani::cover!(o == 366 && r.is_some());
         assert!(r.is_some() == valid, "from_yo_opt: Some exactly for the (year, ordinal) pairs that denote a date in range");
-        if let Some(d) = r { assert!(wf(d) && d.year() == y && d.ordinal() == o); }
+        if let Some(d) = r { assert!(wf(d) && d.year() == y && d.ordinal() == o, "wf(d) && d.year() == y && d.ordinal() == o"); }
     }
 
     // fns: NaiveDate::from_ymd_opt, NaiveDate::from_mdf, NaiveDate::month, NaiveDate::day, NaiveDate::mdf
@@ -95,9 +95,9 @@ mod verif_kani_date {
         let (m, dd) = (d.month() as i64, d.day() as i64);
         kani::cover!(o == 366); kani::cover!(y < 0);
         assert!(ymd_valid(y, m, dd) && cum_days(y, m) + dd == o, "month()/day() are the calendar form of the ordinal");
-        assert!(Datelike::year(&d) as i64 == y && Datelike::month(&d) as i64 == m && Datelike::day(&d) as i64 == dd && Datelike::ordinal(&d) as i64 == o);
-        assert!(d.month0() as i64 == m - 1 && d.day0() as i64 == dd - 1 && d.ordinal0() as i64 == o - 1);
-        assert!(d.leap_year() == is_leap(y));
+        assert!(Datelike::year(&d) as i64 == y && Datelike::month(&d) as i64 == m && Datelike::day(&d) as i64 == dd && Datelike::ordinal(&d) as i64 == o, "Datelike::year(&d) as i64 == y && Datelike::month(&d) as i64 == m && D");
+        assert!(d.month0() as i64 == m - 1 && d.day0() as i64 == dd - 1 && d.ordinal0() as i64 == o - 1, "d.month0() as i64 == m - 1 && d.day0() as i64 == dd - 1 && d.ordinal0(");
+        assert!(d.leap_year() == is_leap(y), "d.leap_year() == is_leap(y)");
     }
 
     // fns: NaiveDate::weekday, Datelike::weekday for NaiveDate
@@ -107,7 +107,7 @@ mod verif_kani_date {
         let (y, o) = (d.year() as i64, d.ordinal() as i64);
         kani::cover!(d.weekday() == Weekday::Sun);
         assert!(wd_idx(d.weekday()) as i64 == weekday_yo(y, o), "weekday() agrees with the day count (reduced mod 400 years)");
-        assert!(Datelike::weekday(&d) == d.weekday());
+        assert!(Datelike::weekday(&d) == d.weekday(), "Datelike::weekday(&d) == d.weekday()");
     }
 
     // fns: NaiveDate::from_ymd_opt, NaiveDate::from_yo_opt (uniqueness: the accessors of a date rebuild exactly that date)
@@ -126,7 +126,7 @@ mod verif_kani_date {
         let (sy, sw) = iso(d.year() as i64, d.ordinal() as i64);
         kani::cover!(sw == 53); kani::cover!(sy != d.year() as i64);
         assert!(w.year() as i64 == sy && w.week() as i64 == sw, "iso_week() follows the Thursday rule (week 1 contains 4 January)");
-        assert!(w.week0() + 1 == w.week());
+        assert!(w.week0() + 1 == w.week(), "w.week0() + 1 == w.week()");
     }
 
     // fns: NaiveDate::from_isoywd_opt (soundness, every i32 year / u32 week; iso_week() is the contract proved by vk_date_iso_week)
@@ -171,12 +171,12 @@ mod verif_kani_date {
         kani::cover!(d.ordinal() == 366); kani::cover!(d == NaiveDate::MAX);
         match d.succ_opt() {
             Some(e) => {
-                assert!(wf(e));
+                assert!(wf(e), "wf(e)");
                 if (d.ordinal() as i64) < year_len(d.year() as i64) { assert!(e.year() == d.year() && e.ordinal() == d.ordinal() + 1, "next ordinal"); }
                 else { assert!(e.year() == d.year() + 1 && e.ordinal() == 1, "1 January of the next year"); }
                 assert!(e.weekday() == d.weekday().succ(), "the successor has the next weekday");
                 assert!(e.pred_opt() == Some(d), "pred_opt inverts succ_opt");
-                assert!(d < e);
+                assert!(d < e, "d < e");
             }
             None => assert!(d.year() as i64 == MAX_Y && d.ordinal() as i64 == year_len(MAX_Y), "succ_opt is None only at MAX"),
         }
@@ -193,7 +193,7 @@ mod verif_kani_date {
         let ka = (a.year(), a.ordinal()); let kb = (b.year(), b.ordinal());
         kani::cover!(a.year() < 0 && b.year() > 0);
         assert!((a < b) == (ka < kb) && (a == b) == (ka == kb) && (a <= b) == (ka <= kb), "date order is lexicographic (year, ordinal) = day-number order (Verus lemma dn_lex_mono)");
-        assert!(a.cmp(&b) == ka.cmp(&kb));
+        assert!(a.cmp(&b) == ka.cmp(&kb), "a.cmp(&b) == ka.cmp(&kb)");
     }
 
     // ------------------------------------------------------------------------------------------
